@@ -37,11 +37,12 @@ Reset ==
   /\ created' = [p \in {} |-> {}] /\ lockseq' = <<>> /\ cin' = [p \in {} |-> ""]
   /\ done' = [r \in {} |-> 0] /\ upd' = [u \in {} |-> 0] /\ vetoer' = ""
 
-Reject(label, detail) ==
-  /\ bad' = Append(bad, [scn |-> E.scn, line |-> l, labels |-> {label}, detail |-> detail])
+RejectAll(labels, detail) ==
+  /\ bad' = Append(bad, [scn |-> E.scn, line |-> l, labels |-> labels, detail |-> detail])
   /\ l' = E.nb
   /\ stats' = Bump("rejected")
   /\ UNCHANGED <<rvars, done, upd, vetoer, lim>>
+Reject(label, detail) == RejectAll({label}, detail)
 
 Skip == /\ l' = l + 1 /\ UNCHANGED <<rvars, bad, stats, done, upd, vetoer, lim>>
 Step(c) == /\ l' = l + 1 /\ stats' = Bump(c) /\ UNCHANGED bad
@@ -184,7 +185,10 @@ TReply ==
 TUnlockingRequest ==
   IF rlock # E.req THEN Reject("C19-unlock-unexpected", <<E.req>>)
   ELSE IF ~RelayDone
-       THEN Reject("C06-missed", <<E.req, {cur.plist[k] : k \in {j \in (cur.pos + 1)..Len(cur.plist) : MustVisit(j)}}>>)
+       \* the relay ended although nobody vetoed: subscribed plugins were not invoked (C06) - the request was cut short,
+       \* it does not carry the contributions of the remaining plugins (C07)
+       THEN RejectAll({"C06-missed", "C07-request-cut-short"},
+                      <<E.req, {cur.plist[k] : k \in {j \in (cur.pos + 1)..Len(cur.plist) : MustVisit(j)}}>>)
   ELSE /\ Unlock(E.req) /\ Step("events")
        /\ done' = Ext(done, E.req, [visited |-> cur.visited, veto |-> cur.veto, ev |-> cur.ev])
        /\ UNCHANGED <<upd, vetoer, lim>>
@@ -217,6 +221,8 @@ TRet ==
   ELSE IF done[r].veto = "yes" /\ ~E.err THEN Reject("C07-veto-ignored", <<r>>)
   ELSE IF done[r].veto # "no" /\ E.err /\ ~E.veto THEN Reject("C07-veto-error-changed", <<r, E.errtext>>)
   ELSE IF done[r].veto = "no" /\ E.err THEN Reject("C07-request-failed", <<r, E.errtext>>)
+  \* a failed request hands back no partial result
+  ELSE IF E.err /\ Len(E.tags) > 0 THEN Reject("C07-partial-result", <<r, E.tags>>)
   ELSE IF ~E.err /\ ~(SetOf(E.tags) \subseteq WantTags(r)) THEN Reject("C06-result-foreign", <<r, E.tags>>)
   \* a plugin that was dropped during the request may or may not have contributed
   ELSE IF ~E.err /\ \E t \in WantTags(r) \ SetOf(E.tags) :
